@@ -1,7 +1,10 @@
-Require Import PG.C08.Model PG.C08.Spec PG.C08.Fast PG.C08.Inst.
+Require Import PG.C08.Model PG.C08.Spec PG.C08.Fast PG.C08.Inst PG.C08.TableModel.
+Require PG.C02.Spec.
 Require Extraction. Require ExtrOcamlBasic.
 Extraction "model.ml" ParseTOASTPointer IsTOASTPointer decompressPGLZ decompressLZ4 decompressCap
   ReassembleTOAST_m ReadValue_m LoadChunks ReadVarlena chunk_of_tuple chunks_of_tuples verbose_info_of_chunks
+  ReadTOASTTable LoadTOASTTable GetTOASTVerboseInfo first_seen_ids
   enc_ptr ptr_is_compressed datum_is_external kf_istoast pglz_stream enc_lz4block chunks_of compressed_payload
-  enc_varlena enc_chunk_tuple ids_of count_of total_bytes max_count values_with_count
-  pglz_out lz4_out pitems_okb lz4seqs_okb.
+  enc_varlena enc_chunk_tuple ids_of count_of total_bytes chunks_with max_count values_with_count
+  pglz_out lz4_out pitems_okb lz4seqs_okb
+  PG.C02.Spec.enc_tuple PG.C02.Spec.enc_page PG.C02.Spec.enc_file.
